@@ -93,6 +93,17 @@ def check_pca(run, A):
         n_scaled = 0
         for ret in rets:
             vec, scale = ret.args[1], ret.args[2]
+            # ... and the vector is the eigenvector get_pca returned, nothing applied to it in between
+            v_ = strip_views(vec)
+            if not (v_.op == 'unpack' and v_.args[1] == 0 and call_parts(strip_views(v_.args[0]))[0] == B + 'get_pca'):
+                sg = [x for x in walk_terms(v_) if is_call_to(x, 'numpy.sign')]
+                if sg and any(x.op == 'unpack' and x.args[1] == 0 and call_parts(strip_views(x.args[0]))[0] == B + 'get_pca' for x in walk_terms(v_)):
+                    run.violation('R-ROLE', 'get_pca_vector: the scaled vector is the unit-norm principal eigenvector', fn.loc(getattr(sg[0], 'node', None)),
+                                  'the eigenvector is multiplied by np.sign(...) of one of its own components before it is scaled: np.sign(0) is 0, an eigenvector with an exactly zero '
+                                  'component there (diagonal PSD, dead microphone) becomes the zero vector - not unit norm, Rayleigh quotient 0 / 0', construct=f'R-ROLE::{qv}::eigenvector-times-sign')
+                else:
+                    run.unresolved('R-ROLE', 'get_pca_vector: the scaled vector is the unit-norm principal eigenvector', fn.loc(getattr(v_, 'node', None)),
+                                   'the first factor of the returned product is not the eigenvector returned by get_pca')
             alts = [strip_views(x) for x in unwrap_gamma(scale) if not dead_leaf(x)]
             for x in alts:
                 if const_val(x) == 1:
